@@ -244,7 +244,7 @@ pub fn run(ctx: &Ctx) -> (Stats, Report) {
     st.section("all_dates_x_units", &mut mark);
 
     // every second of sampled days (hour / minute boundaries and everything else)
-    let days = sampled_days(seed, if ctx.thorough { 64 } else { 12 });
+    let days = sampled_days(seed, if ctx.thorough { 400 } else { 12 });
     for u in UNITS {
         let b = bounds(u);
         let bref = &b;
